@@ -134,6 +134,7 @@ impl<'a> Cx<'a> {
                 match &f.member {
                     syn::Member::Named(id) => {
                         match (&bt, id.to_string().as_str()) {
+                            (Ty::Hv, "data") => return Some(Ty::StdVec),
                             (Ty::Big, "data") => return Some(Ty::Vec),
                             (Ty::RView, "inner") => return Some(Ty::Slice),
                             _ => {}
@@ -190,6 +191,8 @@ impl<'a> Cx<'a> {
                         _ => None,
                     },
                     _ if rt == Some(Ty::Raw) => self.g.get_fn(&self.file, &format!("StackVec::{}", name)).map(|f| f.ret.clone()),
+                    _ if rt == Some(Ty::Hv) => self.g.get_fn(&self.file, &format!("HeapVec::{}", name)).map(|f| f.ret.clone()),
+                    "pop" if rt == Some(Ty::StdVec) => Some(Ty::Opt(Box::new(U64))),
                     _ if matches!(rt, Some(Ty::Vec) | Some(Ty::Big)) => self.deleg_ret_ty(rt.as_ref()?, &name),
                     _ => {
                         let k = self.method_key(rt.as_ref()?, &name)?;
@@ -551,7 +554,7 @@ impl<'a> Cx<'a> {
                 return Ok(Val::new(lit, Ty::Int(t)));
             }
         }
-        if self.raw_mode && s == "bigint::BIGINT_LIMBS" {
+        if (self.raw_mode || self.heap_mode) && s == "bigint::BIGINT_LIMBS" {
             // rule 28: the capacity is a parameter of the model
             self.needs.l = true;
             return Ok(Val::new("(BIGINT_LIMBS L)", Ty::Int(IntTy::Usize)));
@@ -572,6 +575,7 @@ impl<'a> Cx<'a> {
             syn::Member::Named(id) => {
                 // single-field structs are their field (rule 14)
                 match (&b.ty, id.to_string().as_str()) {
+                    (Ty::Hv, "data") => return Ok(Val::new(b.t, Ty::StdVec)),
                     (Ty::Big, "data") => return Ok(Val::new(b.t, Ty::Vec)),
                     (Ty::RView, "inner") => return Ok(Val::new(b.t, Ty::Slice)),
                     _ => {}
@@ -613,6 +617,9 @@ impl<'a> Cx<'a> {
         };
         if self.raw_mode && sname == "StackVec" {
             return self.lower_struct_raw(s);
+        }
+        if self.heap_mode && sname == "HeapVec" {
+            return self.lower_struct_heap(s);
         }
         if let Some((field, inner, outer)) = match sname.as_str() {
             "Bigint" => Some(("data", Ty::Vec, Ty::Big)),
@@ -994,10 +1001,15 @@ impl<'a> Cx<'a> {
             return err(sp, "qualified path `<T as Trait>::..` is unsupported");
         }
         self.check_path_args(&p.path)?;
-        let s = if self.raw_mode { crate::raw::raw_call_key(self, &p.path) } else { path_str(&p.path) };
+        let s = if self.raw_mode || self.heap_mode { crate::raw::raw_call_key(self, &p.path) } else { path_str(&p.path) };
         let args: Vec<&syn::Expr> = c.args.iter().collect();
         if self.raw_mode {
             if let Some(v) = self.lower_call_raw(sp, &s, &args)? {
+                return Ok(v);
+            }
+        }
+        if self.heap_mode {
+            if let Some(v) = self.lower_call_heap(sp, &s, &args)? {
                 return Ok(v);
             }
         }
